@@ -6,9 +6,9 @@ D = {
  "C05_A": ("caught", "quick", "./check C05: 8 of 9 instances fail (e.g. c05_bs_n4_m2 'Complete reported but the pattern does not occur'); replays natively"),
  "C05_B": ("missed", "-", "Occ::get's k > 64 branch needs n >= 66 symbolic bytes; every such C04 instance timed out or ran out of memory (DESIGN 1.2 item 4), and C05 is compositional (exact occ by definition) so it never executes Occ::get"),
  "C08_A": ("caught", "quick", "./check C08: c08_bndm_fix_aaa_n6 / c08_bndm_fix_acag_n6 (concrete pattern x all texts) report a missing occurrence; replays natively. The fully symbolic BNDM instances (m <= 2) cannot see it (needs a bordered proper prefix, m >= 3)"),
- "C08_B": ("pending", "", ""),
- "C09_A": ("pending", "", ""),
- "C09_B": ("pending", "", ""),
+ "C08_B": ("missed", "-", "quick and the fib/ruler thorough families pass with the change applied (they have at most two nested borders on the matched prefixes the text can reach). The pattern family with three nested borders (c08_kmp_fix_nest_n12, 985 s) was added to the thorough tier because of this change; see DESIGN 10.2 for whether it reports it"),
+ "C09_A": ("missed", "-", "the change is only reachable through MyersBuilder (text wildcards); MyersBuilder::new() constructs a std HashMap whose RandomState needs a syscall that Kani does not support (harness c09_myers_u8_wild_*: unsupported construct), so the builder path is not decided"),
+ "C09_B": ("missed", "-", "needs long::Myers::find_all_end with >= 2 full blocks; that entry point exhausts memory at m=9,n=1 and is listed as not decided; the long distance()/find_best_end() instances are unaffected by the change and pass"),
  "C17_A": ("caught", "quick", "./check C17: c17_rank_n33_k1 'rank_1 differs from naive count'; replays natively"),
  "C17_B": ("caught", "quick", "./check C17: c17_select_n33_k1 / c17_select_n40_k1 (after the harness was rewritten with a loop-free word-model oracle; before that select was only decided up to n = 9 and this change was missed)"),
  "C18_A": ("caught", "quick", "./check C18: c18_bitenc_fill_w3/w7, c18_bitenc_hist_w3.. index out of bounds; replays natively (this change re-introduces finding F3a)"),
@@ -21,10 +21,10 @@ D = {
  "C15_B": ("caught", "quick", "./check C15: c15_prob_checked (NaN accepted); replays natively"),
  "C19_A": ("caught", "quick", "./check C19: c19_qgrams_a3_q2_n4 / a5 'q-gram code differs from the packed-rank definition'; replays natively"),
  "C19_B": ("missed", "-", "lcskpp builds a Fenwick tree whose length is a symbolic expression; every lcskpp/sdpkpp harness ran out of memory at 2-3 matches, so chaining is listed as not decided"),
- "C01_A": ("pending", "", ""),
- "C01_B": ("pending", "", ""),
- "C02_A": ("pending", "", ""),
- "C02_B": ("pending", "", ""),
+ "C01_A": ("not completed", "thorough", "the only instance that exercises semiglobal()-then-custom() with asymmetric y clips is c01_restore_1x2_k4_s0_semi (thorough tier, 20 min solve); the run against this change was started and had to be stopped for time before the solver verdict + native replay (trace generation ~12x solve time) finished"),
+ "C01_B": ("caught", "quick", "./check C01: c01_custom_1x1_k1 and _k15 (xclip_prefix enabled): the reported score exceeds the re-scored path / a competitor; replays natively"),
+ "C02_A": ("missed", "-", "needs the banded DP at shape 1x1 with yclip_suffix enabled; every non-empty banded instance crashed CBMC at the 24 GB cap (DESIGN 10.1). With the change applied ./check C02 reports only its two known findings"),
+ "C02_B": ("missed", "-", "needs custom_with_matches with two matches; that entry point timed out at 2x2 with one match and is listed as not decided"),
 }
 for k, (res, tier, how) in D.items():
     p = os.path.join(V, "seeded", k, "meta.json")
